@@ -7,7 +7,9 @@ from . import common as C
 
 # which clauses of Trace_Container belong to which property
 CLAUSES = {
-    "C01": {"write", "decode", "decode_params", "layout", "layout_clustered", "open", "params", "lookup", "extra", "stream", "walk_coverage"},
+    # (box streams are C02's clause and the advertised coverage C03's; C01 is the mapping itself: lookups, nothing extra, the
+    #  declared parameters and the file's layout as decoded independently)
+    "C01": {"write", "decode", "decode_params", "layout", "layout_clustered", "open", "params", "lookup", "extra"},
     "C02": {"stream"},
     "C03": {"coverage_contains", "coverage_exact"},
     "C16": {"open", "params", "lookup", "extra", "stream", "walk_coverage", "coverage_contains", "coverage_exact"},
@@ -93,6 +95,7 @@ def run_family(prop, tier, seed, replay, origin="writer", mc_cfg=None, level="mo
                     rec["bad_streams"] = fl.get("bad_streams")
                     rec["stream_status"] = sorted({b["status"] for b in fl.get("bad_streams", [])})
                 lv = fl["case"]["levels"]
+                rec["deepest_level"] = max(lv) if lv else -1
                 rec["zoom_gap"] = any(b - a > 1 for a, b in zip(lv, lv[1:]))
                 if clist is not None and line - 1 < len(clist):
                     rec["replay_case"] = clist[line - 1]
@@ -119,7 +122,7 @@ def run_family(prop, tier, seed, replay, origin="writer", mc_cfg=None, level="mo
         if replay_sparse:
             uniq = replay_sparse
         else:
-            mc3 = C.run_tlc("mc/MC_Sparse.tla", "mc/MC_Sparse_%s.cfg" % origin, prop + "_mc_sparse", workers=1, replay_out=cases3, timeout=600)
+            mc3 = C.run_tlc("mc/MC_Sparse.tla", "mc/MC_Sparse_%s_%s.cfg" % (origin, tier), prop + "_mc_sparse", workers=1, replay_out=cases3, timeout=600)
             C.require_clean(mc3, "MC_Sparse")
             run.add_tlc(mc3)
             for c in C.read_ndjson(cases3):
@@ -130,7 +133,7 @@ def run_family(prop, tier, seed, replay, origin="writer", mc_cfg=None, level="mo
                 f.write(json.dumps(c) + "\n")
         t3 = os.path.join(d, "trace_sparse.ndjson")
         s3 = C.run_harness(hb, ["isolated", "CONTAINER", cases3, t3, scratch, prop], timeout=6000,
-                           env_extra={"VERIF_ISOLATED_TIMEOUT": "120" if tier == "thorough" else "20"})
+                           env_extra={"VERIF_ISOLATED_TIMEOUT": "240" if tier == "thorough" else "60"})
         v3 = C.validate_trace("trace/Trace_Container.tla", "trace/Trace_Container.cfg", prop + "_trace_sparse", t3, timeout=3000, heap="8g")
         run.add_tlc(v3)
         collect(v3.fails, "sparse", uniq)
